@@ -13,7 +13,7 @@ from formak.exceptions import MinimizationFailure, ModelConstructionError
 from numpy.typing import NDArray
 from scipy.optimize import minimize
 from sklearn.base import BaseEstimator
-from sympy import Matrix, Symbol, cse, simplify
+from sympy import Derivative, Dummy, Matrix, Symbol, cse, simplify
 from sympy.utilities.lambdify import lambdify
 
 from formak import common
@@ -114,6 +114,30 @@ class BasicBlock:
 
         for impl in self._body:
             yield impl(*args, **kwargs, **temporary_values)
+
+
+def _jacobian(matrix, symbols):
+    """
+    Partial derivatives of each row of matrix with respect to each symbol.
+
+    A filter only evaluates its model at real numbers, but sympy differentiates a
+    Symbol without assumptions as a complex variable: d|v|/dv keeps
+    Derivative(re(v), v), which CSE and simplify silently turn into 0.
+    """
+    real = {
+        s: Dummy(s.name, real=True) for s in matrix.free_symbols if s.is_real is None
+    }
+    undo = {d: s for s, d in real.items()}
+    result = (
+        matrix.xreplace(real)
+        .jacobian([real.get(s, s) for s in symbols])
+        .xreplace(undo)
+    )
+    if result.has(Derivative):
+        raise ModelConstructionError(
+            "A partial derivative of the model has no closed form"
+        )
+    return result
 
 
 class Model:
@@ -416,8 +440,8 @@ class ExtendedKalmanFilter:
         process_matrix = Matrix(
             [state_model.state_model[a] for a in self._state_model.arglist_state]
         )
-        symbolic_process_jacobian = process_matrix.jacobian(
-            self._state_model.arglist_state
+        symbolic_process_jacobian = _jacobian(
+            process_matrix, self._state_model.arglist_state
         )
         # TODO(buck): This assertion won't necessarily hold if CSE is on across states
         assert symbolic_process_jacobian.shape == (
@@ -427,7 +451,7 @@ class ExtendedKalmanFilter:
 
         symbolic_control_jacobian = []
         if self.control_size > 0:
-            symbolic_control_jacobian = process_matrix.jacobian(self.arglist_control)
+            symbolic_control_jacobian = _jacobian(process_matrix, self.arglist_control)
 
         self._impl_process_jacobian = BasicBlock(
             arglist=self._state_model.arglist,
@@ -487,7 +511,7 @@ class ExtendedKalmanFilter:
             sensor_matrix = Matrix(
                 [sensor_model.sensor_models[r] for r in sensor_model.readings]
             )
-            symbolic_sensor_jacobian = sensor_matrix.jacobian(self.arglist_sensor)
+            symbolic_sensor_jacobian = _jacobian(sensor_matrix, self.arglist_sensor)
             # TODO(buck): This assertion won't necessarily hold if CSE is on across states
             assert symbolic_sensor_jacobian.shape == (
                 sensor_size,
